@@ -29,6 +29,8 @@ class Sized:
 
 
 def ev(e, env):
+    if isinstance(e, (ast.Compare, ast.BoolOp)) and ('$' + src(e)) in env:
+        return env['$' + src(e)]            # an answer the rule supplies for a whole test (`$fd in self._read`)
     if isinstance(e, ast.Constant):
         return e.value if isinstance(e.value, (int, bool)) or e.value is None else UNKNOWN
     if isinstance(e, (ast.Attribute, ast.Subscript)) and ('$' + src(e)) in env:
@@ -221,3 +223,38 @@ def escapes(cfg, start, env, is_target, *, exits=('exit',), avoid_edge=None, exc
             parent[nst] = (st, e)
             q.append(nst)
     return None
+
+
+def envs_at(cfg, start, env, goal, *, exc=(), weak=False, limit=20000):
+    """The valuations with which a node satisfying *goal* is reached from *start* (paths are followed as in escapes(); a path ends at the goal)."""
+    from collections import deque
+    from .query import default_edge_ok
+    env = dict(env)
+    s0 = (start, _freeze(env))
+    envs = {s0: env}
+    seen = {s0}
+    q = deque([s0])
+    out = []
+    while q and len(seen) < limit:
+        st = q.popleft()
+        node, _k = st
+        env = envs[st]
+        if node is not start and goal(node):
+            out.append((node, env))
+            continue
+        if node.kind in ('exit', 'raise'):
+            continue
+        v = ev(node.ast, env) if node.kind == 'test' else None
+        env2 = env if node.kind == 'test' else _transfer(node, env)
+        for e in node.succ:
+            if not default_edge_ok(e, exc, weak):
+                continue
+            if node.kind == 'test' and e.kind in ('T', 'F') and v is not UNKNOWN and bool(v) != (e.kind == 'T'):
+                continue
+            nst = (e.dst, _freeze(env2))
+            if nst in seen:
+                continue
+            seen.add(nst)
+            envs[nst] = env2
+            q.append(nst)
+    return out
